@@ -152,6 +152,11 @@ def main():
         calls.append(("ISCSIDevice", dev, None, "iqn.1999-01.x:explicit"))
         calls.append(("ISCSIDevice", dev, None, None))
         calls.append(("ISCSIDeviceSub", dev, None, None))
+    if os.getuid() == 0 and os.geteuid() == 0:
+        os.chmod(node.path, 0o600)
+        for rw in (False, True):
+            calls.append(("init_device@reuid", node.path, rw, None))
+            calls.append(("SCSIDevice@reuid", node.path, rw, None))
     # call order: the same calls in four different orders (one process each), so that a factory remembering something from an
     # earlier call (a cached default, a handle, a name) is seen whichever way round the calls come
     order = int(sys.argv[4]) if len(sys.argv) > 4 else 0
@@ -168,6 +173,12 @@ def main():
         del registry.iscsi_events[:]
         RECORD[0] = True
         obj = err = None
+        reuid = fn.endswith("@reuid")
+        if reuid:
+            # a set-uid helper / a daemon that changed its real uid: the EFFECTIVE uid (root) may open the node, the real uid (nobody)
+            # could not - what counts for open() is the effective one
+            fn = fn[:-len("@reuid")]
+            os.setreuid(65534, 0)
         try:
             if fn == "init_device":
                 obj = init_device(dev, rw) if ini is None else init_device(dev, rw, ini)
@@ -198,10 +209,13 @@ def main():
                 obj = ISCSIDevice(dev) if ini is None else ISCSIDevice(dev, ini)
         except Exception as e:   # noqa: BLE001
             err = e
+        finally:
+            if reuid:
+                os.setreuid(0, 0)
         RECORD[0] = False
         opens = list(OPENS)
         events = list(registry.iscsi_events)
-        tag = "%s(%r, rw=%r, initiator=%r) [sgio=%s iscsi=%s]" % (fn, dev, rw, ini, has_sgio, has_iscsi)
+        tag = "%s(%r, rw=%r, initiator=%r)%s [sgio=%s iscsi=%s]" % (fn, dev, rw, ini, " with real uid 65534 / effective uid 0" if reuid else "", has_sgio, has_iscsi)
         sg_path = dev[:5] == "/dev/" and fn in ("init_device", "SCSIDevice", "SCSIDeviceSub")
         is_path = dev[:8] == "iscsi://" and fn in ("init_device", "ISCSIDevice", "ISCSIDeviceSub")
         if fn.endswith("Sub") and ((sg_path and has_sgio) or (is_path and has_iscsi)):
@@ -215,6 +229,8 @@ def main():
                     v.append(("factory/wrong_class", "%s returned %r" % (tag, obj)))
                 elif len(opens) != 1 or (opens[0][2] & os.O_ACCMODE) != (os.O_RDWR if rw else os.O_RDONLY):
                     v.append(("factory/open_mode", "%s opened %r, expected one open of the path with mode %s" % (tag, opens, want_mode)))
+            elif reuid:
+                v.append(("factory/openable_node_refused", "%s raised %s: %s although open() of the node succeeds for this process" % (tag, type(err).__name__, err)))
             elif not isinstance(err, OSError):
                 v.append(("factory/wrong_error", "%s raised %s: %s" % (tag, type(err).__name__, err)))
             if events:
